@@ -16,6 +16,8 @@ RULE = (
     'scales log-uniform 1e-6..1e6 plus the guarded region (0, negative, <1e-15), fractions in [0,1] incl. the ends; '
     'fwhm() is also called with the full parameter dictionary of multi-peak models (2-4 peaks + background; prefixes of equal '
     'length p1_/p2_, nested p_/p_1_/p_1_2_, empty mixed with non-empty, prefixes that look like parameter names); '
+    'a dtype stream gives x and every parameter its own dtype out of float64 / float32 / int64 / int32 (moderate values) and compares '
+    'the result dtype / DTypeError with the model of scipp promotion (callDT); '
     'x at loc + k*scale (|k| <= 45) and far away; x / y units from a grid incl. scaled units; a malformed stream drops, adds '
     'or mis-prefixes a key or gives one parameter a wrong unit. Every case is evaluated by the real Model.__call__ and by '
     'the Lean model; a case is distinct by (tree, prefixes, units, parameter bits, x bits, mutation).'
@@ -188,6 +190,8 @@ def err_kind(e):
 
     if isinstance(e, sc.UnitError):
         return 'err:unit'
+    if isinstance(e, sc.DTypeError):
+        return 'err:dtype'
     if isinstance(e, ValueError):
         return 'err:value'
     if isinstance(e, KeyError):
@@ -432,6 +436,167 @@ def correspond(ctx):
                              'value' + (' (bit-exact demanded: no exp involved)' if exact else ' beyond 1e-12'))
                 break
     _correspond_meta(ctx)
+    _correspond_dtypes(ctx)
+
+
+DTYPES = ['float64', 'float32', 'int64', 'int32']
+DTCODE = {'float64': 'f64', 'float32': 'f32', 'int64': 'i64', 'int32': 'i32'}
+
+
+def typed(v: float, dt: str) -> float:
+    """the value of dtype dt nearest to v, as an exact Python float"""
+    import numpy as np
+
+    if dt == 'float64':
+        return float(v)
+    if dt == 'float32':
+        return float(np.float32(v))
+    return float(int(round(v)))
+
+
+def sc_scalar(v: float, dt: str, unit):
+    import numpy as np
+    import scipp as sc
+
+    if dt.startswith('int'):
+        return sc.scalar(int(v), unit=unit, dtype=dt)
+    return sc.scalar(np.dtype(dt).type(v), unit=unit)
+
+
+def sc_array(xs, dt: str, unit):
+    import numpy as np
+    import scipp as sc
+
+    return sc.array(dims=['x'], values=np.asarray(xs, dtype='float64').astype(dt), unit=unit)
+
+
+def tame_params(rng, t, ux, uy, path, out, locs, dts=None):
+    """like leaf_params, with moderate values that every dtype (float32, small integers) holds without overflow;
+    each parameter gets its own dtype"""
+    if t[0] == 'C':
+        tame_params(rng, t[2], ux, uy, path + [t[1]], out, locs, dts)
+        tame_params(rng, t[3], ux, uy, path + [t[1]], out, locs, dts)
+        return
+    pre = ''.join(path) + _prefix(t)
+    pick = (lambda: rng.choice(dts)) if dts else (lambda: rng.choice(DTYPES))
+    if t[0] == 'P':
+        for i in range(t[1] + 1):
+            dt = pick()
+            out.append((pre + f'a{i}', typed(rng.choice([-1, 1]) * rng.uniform(1, 60), dt), udiv(uy, upow(ux, i)), dt))
+        return
+    dl, ds, da = pick(), pick(), pick()
+    loc = typed(rng.uniform(-20, 20), dl)
+    scale = typed(rng.choice([rng.uniform(0.5, 30)] * 9 + [0.0]), ds)
+    locs.append((loc, max(scale, 1.0)))
+    out.append((pre + 'amplitude', typed(rng.choice([-1, 1]) * rng.uniform(1, 100), da), umul(uy, ux), da))
+    out.append((pre + 'loc', loc, ux, dl))
+    out.append((pre + 'scale', scale, ux, ds))
+    if t[0] == 'V':
+        df = pick()
+        out.append((pre + 'fraction', typed(rng.choice([0.0, 1.0, rng.random()]), df), (0, 0, 0, 0), df))
+
+
+def int_overflow_risk(t, plist, x, path=''):
+    """an integer-typed Horner accumulator (integer leading coefficient) wraps around silently in scipp; the value model
+    works in float64, so such points are not compared (the dtype still is)"""
+    if t[0] == 'C':
+        return int_overflow_risk(t[2], plist, x, path + t[1]) or int_overflow_risk(t[3], plist, x, path + t[1])
+    if t[0] != 'P':
+        return False
+    pre = path + _prefix(t)
+    info = {k: (v, dt) for k, v, _, dt in plist}
+    hi_dt = info[pre + f'a{t[1]}'][1]
+    if not hi_dt.startswith('int'):
+        return False
+    mag = sum(abs(info[pre + f'a{i}'][0]) * abs(x) ** i for i in range(t[1] + 1))
+    return mag >= (2.0 ** 30 if hi_dt == 'int32' else 2.0 ** 62)
+
+
+def _impl_call_typed(t, via, xs, xdt, ux, plist):
+    import numpy as np
+
+    try:
+        m = build(t, via)
+        x = sc_array(xs, xdt, sc_unit(ux))
+        params = {k: sc_scalar(v, dt, sc_unit(u)) for k, v, u, dt in plist}
+        with np.errstate(all='ignore'):
+            r = m(x, **params)
+    except Exception as e:  # noqa: BLE001
+        return err_kind(e)
+    return ('ok', r.unit, [float(v) for v in r.values], str(r.dtype))
+
+
+def _correspond_dtypes(ctx):
+    """x and every parameter in its own dtype: result dtype / DTypeError exactly as scipp promotes the arithmetic the code
+    writes (model: callDT), values against the float64 model at the precision of the inputs"""
+    rng = ctx.rng
+    n = ctx.n(700, 40000)
+    cases, lines = [], []
+    for _ in range(n):
+        t = rand_tree(rng, rng.choice([0, 0, 0, 1, 2]), clash_ok=False)
+        ux, uy = UNITS[rng.choice(X_UNITS)], UNITS[rng.choice(Y_UNITS)]
+        plist, locs = [], []
+        r = rng.random()
+        dts = None if r < 0.6 else (['float64', 'float32'] if r < 0.8 else ['float64', 'int64'])
+        tame_params(rng, t, ux, uy, [], plist, locs, dts)
+        xdt = rng.choice(DTYPES)
+        if locs:
+            xs = [typed(loc + rng.uniform(-5, 5) * sc_, xdt) for loc, sc_ in (rng.choice(locs) for _ in range(3))]
+        else:
+            xs = [typed(rng.uniform(-5, 5), xdt) for _ in range(3)]
+        via = rng.random() < 0.5
+        cases.append((t, via, xs, xdt, ux, plist))
+        mt = tree_tokens(t)
+        toks = ['c16.call', *mt, '|', ustr(ux), *[bits(x) for x in xs], '|']
+        for k, v, u, _ in plist:
+            toks += [hexs(k), bits(v), ustr(u)]
+        lines.append(' '.join(toks))
+        toks = ['c16.calldt', *mt, '|', DTCODE[xdt], '|']
+        for k, v, _, dt in plist:
+            toks += [hexs(k), DTCODE[dt], bits(v)]
+        lines.append(' '.join(toks))
+    outs = ctx.driver(lines)
+    for i, (t, via, xs, xdt, ux, plist) in enumerate(cases):
+        out, outdt = outs[2 * i], outs[2 * i + 1]
+        impl = _impl_call_typed(t, via, xs, xdt, ux, plist)
+        case = {'op': 'call-dtype', 'tree': t, 'x': xs, 'x_dtype': xdt, 'x_unit': ux, 'params': [(k, v, u, dt) for k, v, u, dt in plist]}
+        kind = impl if isinstance(impl, str) else 'ok:' + impl[3]
+        ctx.count('dtype:' + t[0] + ':' + kind)
+        ctx.case(('call-dtype', repr(case)), True, sample={**case, 'impl': kind, 'model': outdt})
+        if isinstance(impl, str):
+            if impl != outdt:
+                ctx.disagree(case, impl, outdt, 'error kind / dtype')
+            continue
+        if outdt != 'ok ' + DTCODE.get(impl[3], impl[3]):
+            ctx.disagree(case, impl[3], outdt, 'result dtype')
+            continue
+        if not out.startswith('ok '):
+            ctx.disagree(case, 'ok', out, 'value model refuses')
+            continue
+        toks = out.split()
+        if impl[1] != sc_unit(tuple(int(j) for j in toks[1].split(','))):
+            ctx.disagree(case, str(impl[1]), toks[1], 'unit')
+            continue
+        mvals = [float('nan') if h == 'nan' else unbits(h) for h in toks[2:]]
+        single = xdt == 'float32' or any(dt == 'float32' for *_, dt in plist)
+        pvals = {k: v for k, v, _, _ in plist}
+        for x, a, b in zip(xs, impl[2], mvals):
+            if math.isnan(a) and math.isnan(b):
+                continue
+            if int_overflow_risk(t, plist, x):
+                ctx.count('dtype:integer-accumulator-overflow-not-compared')
+                continue
+            if math.isinf(a) or math.isinf(b):
+                ok = a == b
+            elif single:
+                ok = abs(a - b) <= 1e-5 * magnitude(t, pvals, x)
+            elif not has_exp(t):
+                ok = a == b
+            else:
+                ok = abs(a - b) <= 1e-12 * magnitude(t, pvals, x)
+            if not ok:
+                ctx.disagree(case, impl[2], mvals, 'value' + (' (1e-5: single precision involved)' if single else ''))
+                break
 
 
 def _correspond_meta(ctx):
@@ -592,22 +757,58 @@ def check_half_max(a):
 
 
 def check_polynomial(a):
-    import numpy as np
+    """sum a_i x^i against exact rationals; coefficients and x in the given dtypes (exact values). The accuracy demanded
+    follows the dtype of the RESULT (float64: 1e-12, float32: 1e-5, integers: exact); float64 coefficients must give a
+    float64 result whatever the dtype of x (an integer or float32 x holds its values exactly)"""
     import scipp as sc
     from scippneutron.peaks import model as M
 
     coef = a['coef']
+    cdts = a.get('cdts') or ['float64'] * len(coef)
+    xdt = a.get('xdt', 'float64')
     m = M.PolynomialModel(degree=len(coef) - 1)
-    x = sc.array(dims=['x'], values=np.asarray(a['xs'], dtype='float64'), unit='m')
-    params = {f'a{i}': sc.scalar(c, unit=sc.Unit('counts') / sc.Unit('m') ** i) for i, c in enumerate(coef)}
-    r = m(x, **params)
+    x = sc_array(a['xs'], xdt, 'm')
+    params = {f'a{i}': sc_scalar(c, dt, sc.Unit('counts') / sc.Unit('m') ** i) for i, (c, dt) in enumerate(zip(coef, cdts))}
+    try:
+        r = m(x, **params)
+    except Exception as e:  # noqa: BLE001
+        return 'dtype', f'polynomial with coefficient dtypes {cdts} refused x of dtype {xdt}: {type(e).__name__}: {e}'
     if r.unit != sc.Unit('counts'):
-        return f'unit {r.unit}, expected counts'
+        return 'unit', f'unit {r.unit}, expected counts'
+    rdt = str(r.dtype)
+    if all(dt == 'float64' for dt in cdts) and rdt != 'float64':
+        return 'dtype', f'float64 coefficients and {xdt} x give a {rdt} result'
+    tol = {'float64': Fraction(1, 10**12), 'float32': Fraction(1, 10**5)}.get(rdt, Fraction(0))
     for xv, got in zip(a['xs'], r.values):
         exact = sum(Fraction(c) * Fraction(xv) ** i for i, c in enumerate(coef))
         scale = sum(abs(Fraction(c)) * abs(Fraction(xv)) ** i for i, c in enumerate(coef))
-        if abs(Fraction(float(got)) - exact) > Fraction(1, 10**12) * scale:
-            return f'polynomial({xv!r}) = {float(got)!r}, sum a_i x^i = {float(exact)!r}'
+        if abs(Fraction(float(got)) - exact) > tol * scale:
+            return 'value', (f'polynomial({xv!r}) = {float(got)!r} ({rdt}), sum a_i x^i = {float(exact)!r} '
+                             f'(coefficient dtypes {cdts}, x {xdt})')
+    return None
+
+
+def check_x_dtype(a):
+    """all parameters float64: x of any dtype (its values are exact) must be accepted and give the float64 result of the
+    same x held in float64"""
+    import numpy as np
+
+    t = tuple_tree(a['tree'])
+    ux = tuple(a['ux'])
+    plist = [(k, v, tuple(u), 'float64') for k, v, u in a['params']]
+    ref = _impl_call_typed(t, False, a['xs'], 'float64', ux, plist)
+    got = _impl_call_typed(t, False, a['xs'], a['xdt'], ux, plist)
+    if isinstance(ref, str):
+        return f'float64 reference evaluation failed: {ref}'
+    if isinstance(got, str):
+        return f'x of dtype {a["xdt"]} refused ({got}) although all parameters are float64'
+    if got[3] != 'float64' or got[1] != ref[1]:
+        return f'x of dtype {a["xdt"]} with float64 parameters gives {got[3]} [{got[1]}], float64 x gives {ref[3]} [{ref[1]}]'
+    pvals = {k: v for k, v, _, _ in plist}
+    for x, g, r in zip(a['xs'], got[2], ref[2]):
+        if not (g == r or (math.isnan(g) and math.isnan(r)) or abs(g - r) <= 1e-12 * magnitude(t, pvals, x)):
+            return f'x = {x!r} as {a["xdt"]}: {g!r}, as float64: {r!r}'
+    del np
     return None
 
 
@@ -783,6 +984,7 @@ CHECKS = {
     'C16:symmetry': check_symmetry,
     'C16:half-max-at-fwhm': check_half_max,
     'C16:polynomial-sum': check_polynomial,
+    'C16:dtype': check_x_dtype,
     'C16:composite-sum': check_composite,
     'C16:prefix-keys': check_prefix,
     'C16:guess': check_guess,
@@ -794,10 +996,14 @@ def _run(ctx, key, args):
         msg = CHECKS[key](args)
     except Exception as e:  # noqa: BLE001
         msg = f'raised {type(e).__name__}: {e}'
+    vkey = key
+    if isinstance(msg, tuple):  # (sub-key, message): a dtype failure of the polynomial is reported under C16:dtype
+        vkey = 'C16:dtype' if msg[0] == 'dtype' else key
+        msg = msg[1]
     ctx.case((key, repr(args)), True)
     ctx.count('oracle:' + key.split(':')[1] + (':' + args['kind'] if 'kind' in args else ''))
     if msg:
-        ctx.violation(key + (':' + args['kind'] if 'kind' in args else ''), msg, {'check': key, 'args': args})
+        ctx.violation(vkey + (':' + args['kind'] if 'kind' in args else ''), msg, {'check': key, 'args': args})
 
 
 def _peak_args(rng, kind):
@@ -821,6 +1027,20 @@ def oracle(ctx, deep):
             _run(ctx, 'C16:symmetry', b)
         leaves, plist, _, _ = multi_peak(rng)
         _run(ctx, 'C16:fwhm-foreign-parameter', {'leaves': [list(t) for t in leaves], 'params': [(k, v, list(u)) for k, v, u in plist]})
+        # polynomial in every dtype: (A) float64 coefficients, any x; (B) floating leading coefficient, anything else
+        deg = rng.randint(1, 6)
+        xdt = rng.choice(DTYPES)
+        cdts = ['float64'] * (deg + 1) if rng.random() < 0.5 else [rng.choice(DTYPES) for _ in range(deg)] + [rng.choice(['float64', 'float32'])]
+        _run(ctx, 'C16:polynomial-sum', {'coef': [typed(rng.choice([-1, 1]) * rng.uniform(1, 60), dt) for dt in cdts], 'cdts': cdts, 'xdt': xdt,
+                                          'xs': [typed(rng.uniform(-5, 5), xdt) for _ in range(3)] + [typed(rng.choice([0.0, 1.0, -1.0, 3.0]), xdt)]})
+        # all parameters float64, x in any dtype
+        td = rand_tree(rng, rng.choice([0, 0, 1]), clash_ok=False)
+        pl, lc = [], []
+        uxd, uyd = UNITS[rng.choice(X_UNITS)], UNITS[rng.choice(Y_UNITS)]
+        tame_params(rng, td, uxd, uyd, [], pl, lc, ['float64'])
+        xdt = rng.choice(DTYPES[1:])
+        xsd = [typed((rng.choice(lc)[0] if lc else 0.0) + rng.uniform(-5, 5) * (rng.choice(lc)[1] if lc else 1.0), xdt) for _ in range(3)]
+        _run(ctx, 'C16:dtype', {'tree': td, 'ux': list(uxd), 'xdt': xdt, 'xs': xsd, 'params': [(k, v, list(u)) for k, v, u, _ in pl]})
         deg = rng.randint(1, 6)
         _run(ctx, 'C16:polynomial-sum', {'coef': [rng.choice([-1, 1]) * logu(rng, 1e-3, 1e3) for _ in range(deg + 1)],
                                           'xs': [rng.uniform(-10, 10) for _ in range(3)] + [rng.choice([-1, 1]) * logu(rng, 1e-6, 1e6)]})
